@@ -119,6 +119,34 @@ def check1(case, acc, tmp):
                         bad('del_metadata:' + what, 'del_metadata(%r,%s): %s' % (ks, dax, d), keys=list(ks), axis=dax)
                     else:
                         acc.count('clause:del_metadata')
+    # one mapping value object given to two ids (taken from another table's metadata, i.e. already in the
+    # library's own representation), then a second update naming only one of them
+    donor, _ = make({'md': True, 'layout': 'csr'})
+    for ax in ('observation', 'sample'):
+        ids = m0.ids(ax)
+        for a, b in itertools.permutations(ids, 2):
+            for shared_kind in ('library-entry', 'plain-dict'):
+                t, _ = make(case)
+                entry = donor.metadata(ids[0], ax) if shared_kind == 'library-entry' else {'k': 'a0', 'extra': 1}
+                exp = m0.add_md(ax, {a: dict(entry), b: dict(entry)}).add_md(ax, {a: {'x': 1}})
+                acc.trans += 2
+                acc.evals += 1
+                try:
+                    t.add_metadata({a: entry, b: entry}, axis=ax)
+                    t.add_metadata({a: {'x': 1}}, axis=ax)
+                except Exception as e:
+                    bad('add_metadata:raised', 'shared-entry scenario raised %s: %s' % (type(e).__name__, e),
+                        axis=ax, ids=[a, b], shared=shared_kind)
+                    continue
+                d = diff(t, exp)
+                if d is not None:
+                    bad('add_metadata:shared-entry', 'the same mapping value given to %s and %s, then an update '
+                        'naming only %s: %s' % (a, b, a, d), axis=ax, ids=[a, b], shared=shared_kind)
+                elif diff(donor, make({'md': True, 'layout': 'csr'})[1]) is not None:
+                    bad('add_metadata:donor-changed', 'the table the mapping values were read from changed',
+                        axis=ax, ids=[a, b], shared=shared_kind)
+                else:
+                    acc.count('clause:add_metadata-shared-entry')
     for dax in ('sample', 'observation', 'whole'):
         t, _ = make(case)
         acc.trans += 1
@@ -131,7 +159,7 @@ def check1(case, acc, tmp):
 
 # ----------------------------------------------------------------------------- part 3
 MENU = ['#SampleID\tA\tB\n', '# a comment\n', '\n', 'x\t1\t2.5\n', 'y\t"q"\n', 'z\t a b \tc;d|e\n',
-        'x\t9\t9\n', 'w\t1\t2\t3\n', '   \n', 'y\t7\tp; q\n']
+        'x\t9\t9\n', 'w\t1\t2\t3\n', '   \n', 'y\t7\tp; q\n', 'v\t-3\t+4.5e1\n']
 OPTSETS = {
     'default': {},
     'keepquotes': {'strip_quotes': False},
@@ -400,7 +428,7 @@ def run(run):
     run.extra['bound'] = {'menu': MENU, 'option_sets': list(OPTSETS), 'cli_option_sets': list(CLIOPTS),
                           'max_lines_parser': 5 if run.quick else 6, 'max_lines_add_metadata': 3,
                           'max_lines_command': 2 if run.quick else 3, 'part2_depth': info['depth_completed']}
-    vacuity(run, ['clause:add_metadata', 'clause:del_metadata', 'clause:mapping-file',
+    vacuity(run, ['clause:add_metadata', 'clause:add_metadata-shared-entry', 'clause:del_metadata', 'clause:mapping-file',
                   'clause:mapping-file-refused', 'clause:add-metadata-function',
                   'clause:add-metadata-command-json', 'clause:add-metadata-command-hdf5'] +
             ['op:' + o for o in META_OPS])
